@@ -49,6 +49,8 @@ func genC12(c *Ctx) {
 			// with a decoded copy (a key that caches what it handed out, by reference, now answers with the edits)
 			e1, f1 := sk.Encode(), pk1.Encode()
 			skHex, pkHex := hx(e1), hx(f1)
+			holdKey("GeneratePrivateKey", sk, e1)
+			holdKey("GeneratePrivateKey.PublicKey", pk1, f1)
 			for i := range e1 {
 				e1[i] ^= 0x3C
 			}
